@@ -34,6 +34,9 @@ Drift(m, e) ==
          IF ~m.cfg.exact THEN ""
          ELSE IF e.p THEN "panic"
          ELSE IF ~e.yx \/ e.y # MapRef(m.cfg.ek, m.cfg.pw, m.cfg.lo, m.cfg.hi, m.cfg.olo, m.cfg.ohi, e.x) THEN "map" ELSE ""
+    [] e.a = "speed_i" ->
+         IF e.p THEN "panic"
+         ELSE IF ~e.ex \/ e.ru # e.u2 \/ e.r # SpeedInterp1024(e.u2, e.k1, e.k2, e.q) THEN "speed_i" ELSE ""
     [] OTHER -> ""
 
 \* rejections are printed as they occur (the state keeps only their number, so that validation stays
